@@ -88,7 +88,7 @@ def _emit(cfgname, out, simulate=None, depth=None, workers=6, timeout=1500, appe
     """Run TLC on an emission configuration, stream its REPLAY lines into the NDJSON file `out`.
     Returns (behaviours written, states generated)."""
     md = workdir("tlc-emit-%d-%s" % (os.getpid(), os.path.basename(cfgname).replace(".cfg", "")))
-    cmd = ["java", "-Xss64m", "-XX:+UseParallelGC", "-Xmx10g", "-cp", JAR_CP, "tlc2.TLC", "-workers", str(workers),
+    cmd = ["java", "-Xss64m", "-XX:+UseParallelGC", "-Xmx10g", "-Djava.io.tmpdir=" + workdir(os.path.basename(md) + ".jtmp"), "-cp", JAR_CP, "tlc2.TLC", "-workers", str(workers),
            "-metadir", md, "-cleanup", "-noGenerateSpecTE", "-deadlock", "-config", cfgname]
     if simulate:
         cmd += ["-simulate", "num=%d" % max(1, simulate // workers), "-depth", str(depth), "-seed", str(seed())]
